@@ -403,11 +403,28 @@ func (e *End) Accepted() bool {
 	return e.accepted
 }
 
+// Addresses look like real TCP: every server-side end has the listener's address as its local
+// address (all connections of one listener share it) and the client's ephemeral address as remote.
+func (e *End) clientAddr() net.Addr {
+	return Addr{fmt.Sprintf("10.0.0.%d:%d", 1+e.P.ID%200, 40000+e.P.ID)}
+}
+func (e *End) serverAddr() net.Addr {
+	if e.P.Addr != "" {
+		return Addr{"10.0.0.254" + e.P.Addr}
+	}
+	return Addr{"10.0.0.254:0"}
+}
 func (e *End) LocalAddr() net.Addr {
-	return Addr{fmt.Sprintf("sim-%d-%d", e.P.ID, e.Side)}
+	if e.Side == 0 {
+		return e.clientAddr()
+	}
+	return e.serverAddr()
 }
 func (e *End) RemoteAddr() net.Addr {
-	return Addr{fmt.Sprintf("sim-%d-%d", e.P.ID, 1-e.Side)}
+	if e.Side == 0 {
+		return e.serverAddr()
+	}
+	return e.clientAddr()
 }
 func (e *End) SetDeadline(t time.Time) error      { return nil }
 func (e *End) SetReadDeadline(t time.Time) error  { return nil }
